@@ -65,7 +65,7 @@ def describe(tier):
         'bounds': '2^6 placements x 3 restart options per (scheme, database); 7 steps',
         'assumptions': ['in-memory transport instead of TCP (validated by mc/loopback.py on loopback TCP)',
                         'server restart = the server process is killed between two client commands and started again on the same directory'],
-        'must_be_nonzero': ['workflows', 'absent-searched', 'server-restarts', 'reloads', 'tcp-loopback-replays', 'two-service-workflows'],
+        'must_be_nonzero': ['workflows', 'absent-searched', 'server-restarts', 'reloads', 'tcp-loopback-replays', 'two-service-workflows', 'patterned-keys'],
     }
 
 
@@ -88,6 +88,8 @@ def units(tier, seed):
                 us.append(('%s/db%d/%d' % (name, dbi, k), {'scheme': name, 'dbi': dbi, 'lo': k, 'hi': k + CHUNK}))
     for name in sse.SCHEMES:
         us.append(('two-services/%s' % name, {'two': name}))
+    for name in ('CJJ14.PiBas', 'CGKO06.SSE1', 'DP17.Pi', 'CT14.Pi'):
+        us.append(('keypatterns/%s' % name, {'keypatterns': name}))
     # conformance of the transport model: workflows replayed over real loopback TCP with the real client (mc/loopback.py)
     if tier == 'quick':
         us.append(('tcp/0', {'tcp': [['CJJ14.PiBas', 0, [1, 0, 1, 0, 1, 1]]]}))
@@ -98,10 +100,13 @@ def units(tier, seed):
     return sorted(us, key=lambda u: not u[0].startswith('tcp'))
 
 
-def run_case(r, seed, name, dbi, bits, restart):
+def run_case(r, seed, name, dbi, bits, restart, keypattern=None):
     from toolkit.database_utils import convert_database_keyword_to_bytes
     from toolkit.bytes_utils import BytesConverter
     case = {'scheme': name, 'db': dbi, 'reload_before_step': bits, 'server_restart_before_step': restart}
+    if keypattern:
+        case['keypattern'] = keypattern
+        r.count('patterned-keys')
     core.note_case(case)
     det.seed_case(seed, PROPERTY, name, dbi)
     jdb = json_dbs()[dbi]
@@ -133,7 +138,11 @@ def run_case(r, seed, name, dbi, bits, restart):
             if step == 'create':
                 cl.create(copy.deepcopy(cfg))
             elif step == 'genkey':
+                if keypattern:          # key material with awkward byte values (leading/trailing whitespace, NUL, ...)
+                    det.pattern_urandom(keypattern, seed, name)
                 cl.genkey()
+                if keypattern:
+                    det.seed_case(seed, PROPERTY, name, dbi, 'after-key')
             elif step == 'encrypt':
                 cl.encrypt(convert_database_keyword_to_bytes(json.loads(json.dumps(jdb))))
             elif step == 'upload-config':
@@ -267,6 +276,11 @@ def run_unit(p, tier, seed):
             run_two_services(r, seed, p['two'], order)
         det.restore()
         return r
+    if 'keypatterns' in p:
+        for pat in det.KEY_PATTERNS:
+            run_case(r, seed, p['keypatterns'], 0, [1, 1, 1, 1, 1, 1], None, keypattern=pat)
+        det.restore()
+        return r
     if 'tcp' in p:
         from mc import loopback
         n, bad = loopback.replay_c09_workflows(seed, [tuple(c) for c in p['tcp']])
@@ -292,5 +306,5 @@ def replay(case, seed):
     if case.get('two_services'):
         run_two_services(r, seed, case['scheme'], case['order'])
         return r['violations']
-    run_case(r, seed, case['scheme'], case['db'], case['reload_before_step'], case['server_restart_before_step'])
+    run_case(r, seed, case['scheme'], case['db'], case['reload_before_step'], case['server_restart_before_step'], keypattern=case.get('keypattern'))
     return r['violations']
